@@ -481,7 +481,11 @@ func search(args map[string]string) {
 		}
 		bases := [][]string{{}, {"setnonce " + a1 + " 1", "setdata " + a1 + " 6b 07", "addrefund 9", "commit 1", "reopen", "addrefund 9"},
 			// a committed storage-only account (nonce 0, no code), reopened and not read: empty() by this code's definition
-			{"setdata " + a1 + " 6b 07", "addft " + a1 + " 663a78 5", "commit 1", "reopen"}}
+			{"setdata " + a1 + " 6b 07", "addft " + a1 + " 663a78 5", "commit 1", "reopen"},
+			// an account that already self-destructed in this (uncommitted) state: with op1 = addbal and
+			// op2 = suicide the second suicide entry has prev = true and must still restore the balance
+			// (seeded regression C04-k skipped the balance when prev was set)
+			{"setnonce " + a1 + " 1", "addbal " + a1 + " 9", "suicide " + a1}}
 		for _, base := range bases {
 			for _, op1 := range alphabet {
 				for _, op2 := range alphabet {
